@@ -141,6 +141,27 @@ func init() {
 			return Str{isArr: true, arr: arr}
 		},
 		"Time": func(m *M, fn *ssa.Function, a []Value) Value { return m.mkTime(symName(m, a[0])) },
+		// DigestOf: an idealised (injective) digest of a text: 32 bytes that spell the text's label and length. Equal
+		// texts have equal digests and different texts different ones; nothing else is known about the bytes.
+		"DigestOf": func(m *M, fn *ssa.Function, a []Value) Value {
+			st := sliceAsStr(m, m.force(a[0]).(Slice))
+			if st.isArr {
+				panic(engineErr("DigestOf of an array-form text"))
+			}
+			lenT, labT := strTerms(st)
+			out := make(Agg, 32)
+			for i := 0; i < 32; i++ {
+				switch {
+				case i < 8:
+					out[i] = Int{w: 8, t: fmt.Sprintf("((_ extract %d %d) %s)", 8*i+7, 8*i, labT)}
+				case i < 16:
+					out[i] = Int{w: 8, t: fmt.Sprintf("((_ extract %d %d) %s)", 8*(i-8)+7, 8*(i-8), lenT)}
+				default:
+					out[i] = cInt(8, false, 0)
+				}
+			}
+			return out
+		},
 		"Big": func(m *M, fn *ssa.Function, a []Value) Value {
 			o := m.newObj(m.symInt(symName(m, a[0]), 64, false))
 			o.name = "big:" + symName(m, a[0])
